@@ -3132,7 +3132,7 @@ class FuncProcessLines(ValueFunc):
         else:
             raise CklRuntimeError(
                 ValueString("ERROR"),
-                "Cannot process lines from " + inparg.toString(),
+                "Cannot process lines from " + inparg.type(),
                 pos,
             )
 
